@@ -752,6 +752,16 @@ impl<'a> Ref<'a> {
                 self.st.xq.push_back(Ev::ext(e));
                 true
             }
+            Stmt::SendInternalExpr(x) => match self.eval(x) {
+                Ok(Val::Str(name)) => {
+                    self.st.iq.push_back(Ev::internal(&name));
+                    true
+                }
+                _ => {
+                    self.error_execution();
+                    false
+                }
+            },
             Stmt::If { branches, els } => {
                 for (c, b) in branches {
                     let ok = match self.eval(c) {
